@@ -148,7 +148,13 @@ impl<K: OneRttKey> KeySet<K> {
 
         match result {
             Ok(packet) => {
-                let generation = if packet_phase != self.key_phase() {
+                // While the derivation timer is armed the other key slot still holds the
+                // *previous* generation, so a packet that decrypts in the other phase is a
+                // delayed packet, not a key update: rotating here would switch back to the
+                // old keys.
+                let generation = if packet_phase != self.key_phase()
+                    && !self.key_update_in_progress()
+                {
                     //= https://www.rfc-editor.org/rfc/rfc9001#section-6.2
                     //# Sending keys MUST be updated before sending an
                     //# acknowledgement for the packet that was received with updated keys.
